@@ -31,6 +31,7 @@ type TreeCfg struct {
 	Key        KeyType `json:"key"`
 	Val        string  `json:"val"`
 	SpareCodec bool    `json:"spare_codec,omitempty"`
+	Shared     bool    `json:"shared,omitempty"` // C16: built once, then only read, by several goroutines
 }
 
 // Step is one scheduled event. T<0 means an environment event.
